@@ -301,21 +301,20 @@ def reduced_universe(tier):
     fA, fB, XA, X0 = elabel(0, [A], True), elabel(0, [B], True), elabel(1, [A], False), elabel(1, [], False)
     ops = [
         ("AddNode", (0, ("NVal", ax))), ("AddNode", (0, ("NVal", bx))),
-        ("NewNode", (0, A, ("IdNone",))),
         ("AddEdge", (0, fA, [("NVal", ax)], ("IdStr", 0))),
         ("AddEdge", (0, fB, [("NVal", bx)], ("IdStr", 1))),
-        ("AddEdge", (0, XA, [("NVal", ay)], ("IdNone",))),
         ("NewEdge", (0, 0, [("NVal", ax), ("NFresh", B)], True, False, ("IdStr", 0))),
         ("SetExt", (0, [("NVal", ax)])), ("SetExt", (0, [("NVal", bx)])), ("SetExt", (0, [])),
         ("RemoveNode", (0, ax)),
         ("RemoveEdge", (0, edge(fA, [ax], EX(0)))),
-        ("Copy", 0), ("Copy", 1), ("EqOp", (0, 2)),
+        ("Copy", 0), ("Copy", 1),
         ("AddRule", (1, XA, 0)), ("NewRule", (1, 1, 0)), ("AddRule", (1, X0, 0)),
-        ("SetStart", (1, ("SName", 0))),
         ("AddEdgeLabel", (1, fB)),
     ]
     if tier != "quick":
         ops += [
+            ("NewNode", (0, A, ("IdNone",))), ("AddEdge", (0, XA, [("NVal", ay)], ("IdNone",))),
+            ("EqOp", (0, 2)), ("SetStart", (1, ("SName", 0))),
             ("RemoveNode", (0, bx)), ("EqOp", (1, 2)), ("SetStart", (1, ("SLabel", XA))), ("AddEdgeLabel", (0, fB)),
             ("AddNode", (0, ("NFresh", B))),
             ("NewEdge", (0, 1, [], False, True, ("IdNone",))),
@@ -413,7 +412,7 @@ def run(tier, seed):
     n_exh = 0
     for ops in exhaustive(tier):
         add(ops, "exhaustive"); n_exh += 1
-    n_rand = 1200 if tier == "quick" else 40000
+    n_rand = 1000 if tier == "quick" else 40000
     hist = {}
     fails = steps = 0
     for i in range(n_rand):
@@ -430,7 +429,7 @@ def run(tier, seed):
             hist[op[0]] = hist.get(op[0], 0) + 1
             steps += 1; fails += (r[0] == "RErr")
     vals = [(ops, tr) for ops, tr, _ in cases]
-    codes, nk = run_model(API, vals, seed=seed, tag="apiseq", coq_sample=25)
+    codes, nk = run_model(API, vals, seed=seed, tag="apiseq", coq_sample=(15 if tier == "quick" else 60))
     code_hist = {}
     for (ops, tr, origin), c in zip(cases, codes):
         if c == 0: continue
